@@ -381,7 +381,7 @@ def show(t: Any, depth: int = 0) -> str:
     if h == "const":
         return repr(t[1])
     if h == "param":
-        return f"${t[1]}"
+        return f"${t[1]}" if len(t) == 2 else f"${t[1]}[{show(t[2], depth + 1)}]"
     if h == "col":
         return f"{_base(t[1])}.{t[2]}"
     if h == "lin":
@@ -433,7 +433,7 @@ def show(t: Any, depth: int = 0) -> str:
 
 def _base(b: Any) -> str:
     if isinstance(b, tuple) and b and b[0] == "param":
-        return b[1]
+        return b[1] if len(b) == 2 else f"{b[1]}[{show(b[2], 8)}]"
     if isinstance(b, tuple) and b and isinstance(b[0], str):
         return b[0].upper() + "#" + str(abs(hash(b)) % 997)
     return str(b)
